@@ -108,9 +108,9 @@ def main():
                    f"--deselect script_tests/test_scripts.py::test_slice_conversion --deselect script_tests/test_scripts.py::test_mesh_conversion "
                    f"--deselect script_tests/test_scripts.py::test_mesh_conversion_with_transform 2>&1 | tail -1", timeout=900)
             desc = f"{rel}:{i + 1}: {old.strip()[:90]}  ->  {lines[i].strip()[:90]}"
-            if "failed" in t.stdout or "error" in t.stdout.lower():
+            if re.search(r"\b\d+ (failed|error)", t.stdout) or "passed" not in t.stdout:
                 stats["tests_kill"] += 1
-                report.write(f"TESTS   {desc}\n")
+                report.write(f"TESTS   {desc}   [{t.stdout.strip()[-80:]}]\n")
                 report.flush()
                 continue
             verdicts = []
